@@ -3,7 +3,7 @@
 import sys, os, shutil, json, subprocess
 pid, k, slug, caught = sys.argv[1:5]
 needs = " ".join(sys.argv[5:])
-wt = f"/tmp/wt_{pid}"
+wt = os.environ.get("WT_PREFIX", "/tmp/wt_") + pid
 dst = f"/verif/seeded/{pid}-{slug}"
 os.makedirs(dst, exist_ok=True)
 shutil.copy(f"{wt}/_seed/patch{k}.diff", f"{dst}/patch.diff")
